@@ -58,6 +58,7 @@ class BuildResult:
         self.discharged = 0
         self.failed_file = None
         self.wall = 0.0
+        self.coqchk = None         # thorough tier: summary of coqchk -o on the cone
 
 
 def _coq_args():
@@ -140,7 +141,7 @@ def _cone_of(target_v):
 OBLIGATION = re.compile(r'^\s*(Theorem|Lemma|Corollary|Example|Fact|Proposition|Remark)\s+(\w+)', re.M)
 
 
-def build(prop_id, want_props=True, log=print):
+def build(prop_id, want_props=True, log=print, tier='quick'):
     """Regenerate, build model+driver, build the property's proof cone.
     Never raises on a broken proof: reports it."""
     t0 = time.time()
@@ -232,6 +233,36 @@ def build(prop_id, want_props=True, log=print):
                     r.assumptions.append('no Print Assumptions for: ' + ','.join(missing))
                 if closed < len(thms):
                     r.axioms_ok = False
+            if r.proof_ok and tier == 'thorough':
+                # independent re-check of the compiled cone (coqchk -o), cached by the hash of its .vo files
+                hh = hashlib.sha256()
+                for v in sorted(r.cone):
+                    try:
+                        hh.update(open(os.path.join(COQ, v + 'o'), 'rb').read())
+                    except OSError:
+                        hh.update(v.encode())
+                cache = os.path.join(BUILD, 'coqchk_%s.json' % prop_id)
+                got = None
+                if os.path.exists(cache):
+                    try:
+                        c = json.load(open(cache))
+                        if c.get('hash') == hh.hexdigest():
+                            got = c
+                    except ValueError:
+                        got = None
+                if got is None:
+                    qargs = ' '.join(l.strip() for l in open(os.path.join(COQ, '_CoqProject')) if l.startswith('-Q'))
+                    rc, out = sh('timeout 2400 coqchk -silent -o %s Selfies.%s' % (qargs, prop_id), cwd=COQ, timeout=2500)
+                    summ = out[out.find('CONTEXT SUMMARY'):] if 'CONTEXT SUMMARY' in out else out[-1500:]
+                    fields = dict((k.strip(), v.strip()) for k, v in re.findall(r'\* ([^:\n]+):\s*([^\n]*)', summ))
+                    ok = (rc == 0 and fields.get('Axioms') == '<none>'
+                          and all(v == '<none>' for k, v in fields.items() if k != 'Theory'))
+                    got = {'hash': hh.hexdigest(), 'ok': ok, 'rc': rc, 'fields': fields, 'tail': summ[-1200:]}
+                    json.dump(got, open(cache, 'w'), indent=1)
+                r.coqchk = got
+                if not got['ok']:
+                    r.axioms_ok = False
+                    r.assumptions.append('coqchk -o does not report a closed, fully checked context: ' + json.dumps(got.get('fields'))[:400])
             allv = []
             for root, _, fs in os.walk(COQ):
                 allv += [os.path.join(root, f) for f in fs if f.endswith('.v') and not f.startswith('Tmp_')]
@@ -451,6 +482,7 @@ def write_evidence(prop_id, tier, seed, b, rep, violations, trusted_extra=None, 
         'proof_cone_files': b.cone,
         'proof_ok': b.proof_ok,
         'axioms_ok': b.axioms_ok,
+        'coqchk': ({'ok': b.coqchk['ok'], 'fields': b.coqchk.get('fields')} if b.coqchk else 'not run (thorough tier only)'),
         'forbidden_words': b.forbidden,
         'translator': b.gen_status.get('functions', {}),
         'correspondence_disagreements': len(rep.disagreements),
